@@ -76,7 +76,7 @@ def check(case):
         r = plrun.classify_exception(exc)
         return Outcome(failure=Failure("prepare-failed", repr(r), sig="prepare-failed:%s" % (r[1],)))
     derived = set()
-    for s in prog:
+    for s in sem.expand(prog):
         if s[0] in ("rule", "ad") and s[2]:
             for h in ([s[1]] if s[0] == "rule" else [a for _, a in s[1]]):
                 derived.add((h[0], len(h[1])))
@@ -225,7 +225,7 @@ def _cases(draw):
     qpool = [s[1] for s in prog if s[0] == "query"]
     epool = [s[1] for s in prog if s[0] == "evidence"]
     # more ground atoms over the program's predicates
-    preds = sorted(set((s[1][0], len(s[1][1])) for s in base if s[0] in ("fact", "rule")) |
+    preds = sorted(set((s[1][0], len(s[1][1])) for s in base if s[0] in ("fact", "rule", "rule_or")) |
                    set((s[2][0], len(s[2][1])) for s in base if s[0] == "pfact") |
                    set((a[0], len(a[1])) for s in base if s[0] == "ad" for _, a in s[1]))
     nextra = draw(st.integers(0, 3))
@@ -251,6 +251,7 @@ def _cases(draw):
 
 
 KNOWN_CLASSES = {
+    "cyclic_or_complement": lambda case, failure: gp.cyclic_body_disjunction_with_complement(case["prog"]),
     "negcycle_fp": lambda case, failure: gp.neg_on_cyclic_goal_under_active_cycle(case["prog"]),
     "neg_under_cycle": lambda case, failure: gp.neg_under_active_cycle(case["prog"]),
     "ad_cyclic_complement": lambda case, failure: gp.cyclic_multihead_ad_with_complementary_body(case["prog"]),
